@@ -185,7 +185,8 @@ def nostd_inputs(name):
     if name == "Product":
         return [d + "pub struct S(u8); impl ::core::ops::Mul for S { type Output = S; fn mul(self, o: S) -> S { S(self.0 * o.0) } }"]
     if name in ("AsRef", "AsMut"):
-        return [d + "pub struct S(u8);", d + "#[%s(forward)] pub struct S([u8; 2]);" % ("as_ref" if name == "AsRef" else "as_mut")]
+        return [d + "pub struct S(u8);", d + "#[%s(forward)] pub struct S([u8; 2]);" % ("as_ref" if name == "AsRef" else "as_mut"),
+                d + "pub struct S(dyn ::core::fmt::Debug);"]     # (a trait-object field: the expansion goes through `__private::Same`)
     if name == "Constructor":
         return [d + "pub struct S { a: u8, b: i8 }"]
     if name == "Debug":
@@ -209,17 +210,18 @@ def nostd_inputs(name):
     if name == "IndexMut":
         return [d + "pub struct S([u8; 2]); impl<I> ::core::ops::Index<I> for S where [u8; 2]: ::core::ops::Index<I> { type Output = <[u8; 2] as ::core::ops::Index<I>>::Output; fn index(&self, i: I) -> &Self::Output { &self.0[i] } }"]
     if name == "Into":
-        return [d + "pub struct S(u8, i8);", d + "#[into(owned, ref, ref_mut)] pub struct S { a: u8 }"]
+        return [d + "pub struct S(u8, i8);", d + "#[into(owned, ref, ref_mut)] pub struct S { a: u8 }", d + "#[into(ref, ref_mut)] pub struct S(*const dyn ::core::fmt::Debug, u8);"]
     if name == "IntoIterator":
-        return [d + "#[into_iterator(owned, ref, ref_mut)] pub struct S([u8; 2]);"]
+        return [d + "#[into_iterator(owned, ref, ref_mut)] pub struct S([u8; 2]);", d + "#[into_iterator(ref, ref_mut)] pub struct S([&'static dyn ::core::fmt::Debug; 2]);"]
     if name == "IsVariant":
         return [d + "pub enum S { A(u8), B { x: i8 }, C }"]
     if name in ("Unwrap", "TryUnwrap"):
-        return [d + "#[%s(ref, ref_mut)] pub enum S { A(u8), B(i8, u8), C }" % ("unwrap" if name == "Unwrap" else "try_unwrap")]
+        a = "unwrap" if name == "Unwrap" else "try_unwrap"
+        return [d + "#[%s(ref, ref_mut)] pub enum S { A(u8), B(i8, u8), C }" % a, d + "#[%s(ref, ref_mut)] pub enum S { A(*const dyn ::core::fmt::Debug), B(&'static dyn ::core::fmt::Debug, u8), C }" % a]
     if name == "TryFrom":
         return [d + "#[try_from(repr)] #[repr(u8)] pub enum S { A = 1, B, C(u8) }"]
     if name == "TryInto":
-        return [d + "#[try_into(owned, ref, ref_mut)] pub enum S { A(u8), B(i8, u8), C }"]
+        return [d + "#[try_into(owned, ref, ref_mut)] pub enum S { A(u8), B(i8, u8), C }", d + "#[try_into(ref, ref_mut)] pub enum S { A(*const dyn ::core::fmt::Debug), B(i8, u8), C }"]
     raise MachineryError("no #![no_std] input for derive %s" % name)
 
 
